@@ -317,6 +317,31 @@ class LocationTable:
                 self.loc_t[gn_address] = entry
         return entry
 
+    def _is_current(self, entry: LocationTableEntry, current_time: TST | None = None) -> bool:
+        """
+        True while the entry has not expired (ETSI EN 302 636-4-1 V1.4.1 (2020-01). Section 8.1.3).
+
+        Expired entries are only removed when a packet is processed
+        (refresh_table). An entry whose lifetime has run out must not be
+        re-used for the next packet of its station: the station is unknown
+        again (IS_NEIGHBOUR FALSE, empty duplicate packet list), exactly as if
+        the entry had been removed when its lifetime ended.
+        """
+        if not entry.position_vector_received:
+            # placeholder of a location-service lookup still in progress
+            return entry.ls_pending
+        if current_time is None:
+            current_time = TST.set_in_normal_timestamp_milliseconds(
+                round(TimeService.time() * 1000))
+        # one read of the position vector: it may be replaced by another thread
+        # (update_position_vector) between the two comparisons
+        tst = entry.position_vector.tst
+        # a timestamp ahead of the local clock (sender clock skew) has age 0
+        return (
+            tst > current_time
+            or (current_time - tst) <= self.mib.itsGnLifetimeLocTE * 1000
+        )
+
     def refresh_table(self) -> None:
         """
         Removes the entries that have expired.
@@ -325,18 +350,10 @@ class LocationTable:
         """
         current_time = TST.set_in_normal_timestamp_milliseconds(
             round(TimeService.time() * 1000))
-        lifetime_ms = self.mib.itsGnLifetimeLocTE * 1000
         with self.loc_t_lock:
             self.loc_t = {
                 gn: entry for gn, entry in self.loc_t.items()
-                if (
-                    # placeholder of a location-service lookup still in progress
-                    entry.ls_pending
-                    if not entry.position_vector_received
-                    # a timestamp ahead of the local clock (sender clock skew) has age 0
-                    else entry.position_vector.tst > current_time
-                    or (current_time - entry.position_vector.tst) <= lifetime_ms
-                )
+                if self._is_current(entry, current_time)
             }
 
     def new_shb_packet(
@@ -361,6 +378,8 @@ class LocationTable:
         """
         with self.loc_t_lock:
             entry = self.loc_t.get(position_vector.gn_addr)
+            if entry is not None and not self._is_current(entry):
+                entry = None
             if entry is None:
                 entry = LocationTableEntry(self.mib)
                 self.loc_t[position_vector.gn_addr] = entry
@@ -394,6 +413,8 @@ class LocationTable:
         so_pv = guc_extended_header.so_pv
         with self.loc_t_lock:
             entry: LocationTableEntry | None = self.get_entry(so_pv.gn_addr)
+            if entry is not None and not self._is_current(entry):
+                entry = None
             is_new_entry = entry is None
             if is_new_entry:
                 entry = LocationTableEntry(self.mib)
@@ -433,6 +454,8 @@ class LocationTable:
         with self.loc_t_lock:
             entry: LocationTableEntry | None = self.get_entry(
                 tsb_extended_header.so_pv.gn_addr)
+            if entry is not None and not self._is_current(entry):
+                entry = None
             is_new_entry = entry is None
             if is_new_entry:
                 entry = LocationTableEntry(self.mib)
@@ -469,6 +492,8 @@ class LocationTable:
         so_pv = gbc_extended_header.so_pv
         with self.loc_t_lock:
             entry: LocationTableEntry | None = self.get_entry(so_pv.gn_addr)
+            if entry is not None and not self._is_current(entry):
+                entry = None
             is_new_entry = entry is None
             if is_new_entry:
                 entry = LocationTableEntry(self.mib)
@@ -511,6 +536,8 @@ class LocationTable:
         so_pv = ls_request_header.so_pv
         with self.loc_t_lock:
             entry: LocationTableEntry | None = self.get_entry(so_pv.gn_addr)
+            if entry is not None and not self._is_current(entry):
+                entry = None
             is_new_entry = entry is None
             if is_new_entry:
                 entry = LocationTableEntry(self.mib)
@@ -553,6 +580,8 @@ class LocationTable:
         so_pv = ls_reply_header.so_pv
         with self.loc_t_lock:
             entry: LocationTableEntry | None = self.get_entry(so_pv.gn_addr)
+            if entry is not None and not self._is_current(entry):
+                entry = None
             is_new_entry = entry is None
             if is_new_entry:
                 entry = LocationTableEntry(self.mib)
@@ -591,6 +620,8 @@ class LocationTable:
         with self.loc_t_lock:
             entry: LocationTableEntry | None = self.get_entry(
                 gbc_extended_header.so_pv.gn_addr)
+            if entry is not None and not self._is_current(entry):
+                entry = None
             if entry is None:
                 entry = LocationTableEntry(self.mib)
                 self.loc_t[gbc_extended_header.so_pv.gn_addr] = entry
